@@ -29,7 +29,7 @@ func init() {
 	Registry["C01"] = func(tier string) []fw.Scenario {
 		L, LP := 3, 3
 		if tier == "thorough" {
-			L, LP = 5, 4
+			L, LP = 7, 5
 		}
 		rows, pairs := rowsAndPairs()
 		var scns []fw.Scenario
@@ -58,7 +58,7 @@ func init() {
 	Registry["C03"] = func(tier string) []fw.Scenario {
 		L, LP := 3, 2
 		if tier == "thorough" {
-			L, LP = 4, 3
+			L, LP = 6, 5
 		}
 		rows, pairs := rowsAndPairs()
 		var scns []fw.Scenario
@@ -95,7 +95,7 @@ func init() {
 	Registry["C08"] = func(tier string) []fw.Scenario {
 		L, LP := 3, 2
 		if tier == "thorough" {
-			L, LP = 5, 3
+			L, LP = 7, 5
 		}
 		rows, pairs := rowsAndPairs()
 		var scns []fw.Scenario
@@ -122,7 +122,7 @@ func init() {
 	Registry["C09"] = func(tier string) []fw.Scenario {
 		L, LP := 3, 2
 		if tier == "thorough" {
-			L, LP = 4, 3
+			L, LP = 5, 4
 		}
 		rows, pairs := rowsAndPairs()
 		var scns []fw.Scenario
@@ -166,7 +166,7 @@ func init() {
 	Registry["C12"] = func(tier string) []fw.Scenario {
 		L, LP := 3, 2
 		if tier == "thorough" {
-			L, LP = 4, 3
+			L, LP = 6, 5
 		}
 		rows, pairs := rowsAndPairs()
 		var scns []fw.Scenario
